@@ -185,7 +185,16 @@ async fn attack_lookups<TC: Configuration>(cx: &mut Cx, r: &mut Rng, sv: &Server
         for (v, val, ep) in vers.iter() {
             let x = sv.nl(l, false, *v).await;
             for (k, np) in anchored_nonmembership::<TC>(&sv.azks, &sv.st, &sv.nodes, &x).await.into_iter().enumerate() {
-                cands.push((format!("version {} of {} anchor {}", v, nv, k), sv.lookup_for(l, *v, val, *ep, np).await, root, t.epoch));
+                cands.push((format!("version {} of {} anchor {}", v, nv, k), sv.lookup_for(l, *v, val, *ep, np.clone()).await, root, t.epoch));
+                // the same anchor with the claimed freshness label cut short: the genuine VRF bytes with a
+                // label_len below 256 name a string that really is absent
+                for len in [255u32, 200, np.longest_prefix.label_len + 1] {
+                    if len < 256 && len > np.longest_prefix.label_len {
+                        let mut np2 = np.clone();
+                        np2.label = akd::NodeLabel { label_val: x.label_val, label_len: len };
+                        cands.push((format!("version {} of {} anchor {} freshness label cut to {} bits", v, nv, k, len), sv.lookup_for(l, *v, val, *ep, np2).await, root, t.epoch));
+                    }
+                }
             }
         }
         let honest_np = sv.azks.get_non_membership_proof::<TC, _>(&sv.st, sv.nl(l, false, nv).await).await.unwrap();
@@ -286,6 +295,13 @@ async fn attack_histories<TC: Configuration>(cx: &mut Cx, r: &mut Rng, sv: &Serv
                 if let Some(p) = sv.history_for(l, vers, 1, n - drop, t.epoch, anchor).await {
                     cands.push((format!("newest {} dropped, absences anchored {} above", drop, anchor), p, HistoryParams::Complete, false));
                 }
+            }
+            // absences "proved" for the future markers' labels cut short (genuine VRF bytes, label_len < 256)
+            if let Some(mut p) = sv.history_for(l, vers, 1, n - drop, t.epoch, 0).await {
+                for np in p.non_existence_of_future_marker_proofs.iter_mut() {
+                    np.label.label_len = 255.max(np.longest_prefix.label_len + 1).min(255);
+                }
+                cands.push((format!("newest {} dropped, absence labels cut to 255 bits", drop), p, HistoryParams::Complete, false));
             }
             let mut p = honest.clone();
             for _ in 0..drop { p.update_proofs.remove(0); }
@@ -460,6 +476,32 @@ async fn late_stale<TC: Configuration>(cx: &mut Cx, r: &mut Rng) {
         let v = key_history_verify::<TC>(&sv.pk, root, 3, al.clone(), p.clone(), HistoryVerificationParams::Default { history_params: HistoryParams::Complete });
         cx.emit(format!("vhist {} {} {} {} {} c 0 {}", cfg, hex::encode(&sv.pk), hx(&root), 3, hb(&l), ser_history(&p)), match &v { Ok(rs) => format!("ok {} {}", rs.len(), rs.iter().map(|x| format!("{} {} {}", x.epoch, x.version, hb(&x.value.0))).collect::<Vec<_>>().join(" ")), Err(_) => "err".into() });
         cx.stat("late_stale_trees");
+        if variant > 0 {
+            // the same history with the previous-version material left out / only one half present
+            for mode in 0..3 {
+                let mut p2 = p.clone();
+                for u in p2.update_proofs.iter_mut() {
+                    if mode != 1 { u.previous_version_proof = None; }
+                    if mode != 2 { u.previous_version_vrf_proof = None; }
+                }
+                vchk_history::<TC>(cx, &sv.pk, &l, &p2, 3).await;
+                let v2 = key_history_verify::<TC>(&sv.pk, root, 3, al.clone(), p2.clone(), HistoryVerificationParams::Default { history_params: HistoryParams::Complete });
+                cx.emit(format!("vhist {} {} {} {} {} c 0 {}", cfg, hex::encode(&sv.pk), hx(&root), 3, hb(&l), ser_history(&p2)), match &v2 { Ok(rs) => format!("ok {} {}", rs.len(), rs.iter().map(|x| format!("{} {} {}", x.epoch, x.version, hb(&x.value.0))).collect::<Vec<_>>().join(" ")), Err(_) => "err".into() });
+                if v2.is_ok() {
+                    cx.fail(format!("C07 history verifies with the previous-version material omitted (mode {}) although the superseded version was {} (cfg {})", mode, if variant == 1 { "retired one epoch late" } else { "never retired" }, cfg));
+                    if variant == 2 {
+                        // C08: under the same root a lookup for the superseded version 1 verifies as well
+                        let np = sv.azks.get_non_membership_proof::<TC, _>(&sv.st, s1).await;
+                        if let Ok(np) = np {
+                            let lp = sv.lookup_for(&l, 1, &[1u8], 1, np).await;
+                            if lookup_verify::<TC>(&sv.pk, root, 3, al.clone(), lp).is_ok() {
+                                cx.fail(format!("C08 two different latest versions verify under one root: complete history with latest version 2 and a lookup for version 1 (cfg {})", cfg));
+                            }
+                        }
+                    }
+                }
+            }
+        }
         match (variant, v.is_ok()) {
             (0, false) => cx.fail("C07 harness self-check: history over a correctly retired version rejected".into()),
             (1, true) => cx.fail(format!("C07 history verifies although the superseded version was retired one epoch late (cfg {})", cfg)),
